@@ -73,6 +73,7 @@ func vCheckRollFiles(dir string, app *RollingFileAppender, m *vRollModel) {
 func H_C13_sequential() {
 	vOpt("loop", 200)
 	vClockMode(1)
+	vClockWindow(100000) // about 28 h: below the retention age of 168 h, above every interval
 	root := vFSRoot()
 	defer vFSCleanup()
 	dir := root + "/logs"
@@ -114,6 +115,7 @@ func H_C13_sequential() {
 		vAssert(vFSOpenFDs() <= 2, "at-most-two-descriptors-while-running")
 	}
 	app.Stop()
+	vDrain() // the retention goroutines started by rotations run to completion (nothing may expire here)
 	vAssert(vFSOpenFDs() == 0, "no-descriptor-left-open-after-stop")
 	vCheckRollFiles(dir, app, m)
 	vReach("end")
@@ -199,4 +201,70 @@ func H_C13_concurrent_nostall() {
 		return
 	}
 	vRollConcurrent(false, 2, 2, 1)
+}
+
+//verif:witness H_C13_concrete end
+//verif:bound C13 all concrete clock: interval 1 h, retention 1 h or 168 h, 2..4 writes separated by 0 / 1700 / 3500 / 7300 s, the retention goroutine runs to completion after every write; file names are real timestamps; every write whose file has not legitimately expired (modification time older than the retention age at a cleanup) must be present exactly once
+//verif:engine-only H_C13_concrete
+
+// H_C13_concrete: rotation + retention with real timestamps: nothing younger than the retention age disappears.
+func H_C13_concrete() {
+	vOpt("loop", 400)
+	vOpt("preempt", 1)
+	root := vFSRoot()
+	defer vFSCleanup()
+	dir := root + "/logs"
+	vFSMkdir(dir)
+	maxAge := [2]int32{1, 168}[vChoose("maxAge", 2)]
+	app := &RollingFileAppender{FileDir: dir, FileName: "r", Rotation: TimeRotation{Interval: time.Hour}, MaxAge: maxAge}
+	if err := app.Start(); err != nil {
+		panic(err)
+	}
+	type fileModel struct {
+		mtime   int64
+		content []byte
+		alive   bool
+	}
+	files := []*fileModel{{mtime: vClockUnix(), alive: true}}
+	curr := vClockUnix() - vClockUnix()%3600
+	n := 2 + vChoose("writes", 3)
+	for i := 0; i < n; i++ {
+		vClockAdvance([4]int{0, 1700, 3500, 7300}[vChoose("gap", 4)]) // never exactly the retention age
+		p := []byte{byte('A' + i), '\n'}
+		app.Write(p)
+		now := vClockUnix()
+		rotated := now-now%3600 > curr
+		if rotated {
+			curr = now - now%3600
+			files = append(files, &fileModel{alive: true})
+		}
+		f := files[len(files)-1]
+		f.content = append(f.content, p...)
+		f.mtime = now
+		vDrain() // the cleanup started by a rotation runs now
+		if rotated {
+			for _, g := range files {
+				if g.alive && g.mtime < vClockUnix()-int64(maxAge)*3600 {
+					g.alive = false // legitimately expired
+				}
+			}
+		}
+	}
+	app.Stop()
+	var all []byte
+	for _, nm := range vFSNames(dir) {
+		c, _ := vFSRead(dir, nm)
+		all = append(all, c...)
+	}
+	var want []byte
+	for _, g := range files {
+		if g.alive {
+			want = append(want, g.content...)
+		}
+	}
+	vAssert(len(all) == len(want), "exactly-the-unexpired-writes-are-in-the-files")
+	for i := 0; i+1 < len(want); i += 2 {
+		vAssert(vContains(all, string(want[i:i+2])), "unexpired-write-is-present")
+	}
+	vReach("end")
 }
